@@ -270,7 +270,7 @@ func fileCase(c Case, rec *evid.Rec) (err error) {
 	// Chunker and each holds its own open Chunk): the ranges partition [0,n), so together they still deliver
 	// every line once. Turn lengths derive from the case's Seed; at most four chunks are open at a time.
 	interleaved := 0
-	if len(c.Cuts) > 0 || c.Seed%3 == 0 {
+	if (len(c.Cuts) > 0 && c.Seed%2 == 0) || c.Seed%3 == 0 {
 		cuts := []int{0, n}
 		for _, x := range c.Cuts {
 			cuts = append(cuts, x%(n+1))
